@@ -18,6 +18,19 @@ fn scratch_base() -> PathBuf {
     }
 }
 
+/// Removes every scratch directory of this process (statics and thread-locals of the main
+/// thread are not dropped at exit).
+pub fn cleanup_scratch() {
+    let prefix = format!("bwmc-{}-", std::process::id());
+    if let Ok(entries) = std::fs::read_dir(scratch_base()) {
+        for e in entries.flatten() {
+            if e.file_name().to_string_lossy().starts_with(&prefix) {
+                let _ = std::fs::remove_dir_all(e.path());
+            }
+        }
+    }
+}
+
 /// A scratch directory removed on drop.
 pub struct Scratch {
     pub dir: PathBuf,
